@@ -148,6 +148,11 @@ def tasks_for(run, module, prop, quick_depth=2, thorough_depth=3, lf_quick=0, lf
             tasks.append({"rec": rec, "depth": 2, "module": module, "prop": prop, "tier": run.tier,
                           "line_fault_depth": 0, "inits": 2, "max_states": 800})
     if prop in ("C03",):
+        # attributes served by a descriptor (overridable spec_property, property with a setter) are type-checked like any other
+        for rec in G.property_served_records()[:3] + G.setter_served_records():
+            tasks.append({"rec": rec, "depth": 2, "module": module, "prop": prop, "tier": run.tier,
+                          "line_fault_depth": 0, "inits": 2, "max_states": 800})
+    if prop in ("C03",):
         for rec in G.bad_default_records():
             tasks.append({"rec": rec, "depth": 2, "module": module, "prop": prop, "tier": run.tier,
                           "line_fault_depth": 0, "inits": None, "max_states": 800})
